@@ -94,16 +94,16 @@ CLAIMS['C34'] = dict(engine='rtc (E3)', category='exploration',
     text='Bounded: for every occupation and every reported transition the final configuration reports the reverse transition with opposite displacement and Q - Q_rev = E_final - E_initial (1e-9), with KRA values, TS clusters, spectators, and a vacancy.',
     note='Sampler catalogue is the bound.')
 
-CLAIMS['C02'] = dict(engine='rtc (E3)', category='exploration',
-    technique='run-time postcondition of Interstitial.diffusivity against the full-site-basis CTMC spec function (numpy pinv), and agreement with the Green-function calculator; bounded stand-in',
+CLAIMS['C02'] = dict(engine='symx-lf (E4b) + rtc (E3)', category='exploration',
+    technique='contract clauses of Interstitial.diffusivity as exact rational-function identities: the real source executed on symbolic prefactors/energies per enumerated network (detailed balance, null vector, bias, D0, reduced solution solves the full bias equation); run-time postcondition against the full-site-basis CTMC spec function and the Green-function calculator as bounded stand-in',
     text='Bounded: on every catalogue crystal (solve and pinv branches, vector bases of dimension 0-6, 2D and 3D, rotated settings) with seeded data the interstitial diffusivity equals the exact long-time diffusivity to 1e-9 and GFCrystalcalc.D agrees to 1e-8. Known finding (thorough tier): GFCrystalcalc.SetRates refuses diffusivities more anisotropic than about 1e6.',
     note='CTMC formula trusted as definition; catalogue and seeded data are the bound.')
 CLAIMS['C03'] = dict(engine='rtc (E3)', category='exploration',
     technique='self-certifying run-time postconditions (symmetry, point-group invariance, positive semidefiniteness) on both calculators; bounded stand-in with known findings',
     text='Bounded: tensors returned by Interstitial.diffusivity / elastodiffusion and VacancyMediated.Lij over the catalogue with rate ratios up to e^8. Known findings: Lsv/L1vv asymmetric on low-symmetry crystals, Lss with a negative eigenvalue on one 2D cell.',
     note='Tolerances 1e-8 (1e-5 with origin states: integration accuracy).')
-CLAIMS['C04'] = dict(engine='rtc (E3)', category='exploration',
-    technique='relational run-time contracts (energy shifts, joint prefactor scaling, energy/temperature co-scaling, rate scaling; reused and fresh calculators); bounded stand-in -- the planned degree-typing proof is not built',
+CLAIMS['C04'] = dict(engine='symx-lf (E4b) + rtc (E3)', category='exploration',
+    technique='relational contracts: for the interstitial calculator the real source is executed on symbolic data and shift / prefactor / rate-scaling invariances are decided as exact rational-function identities per enumerated network; relational run-time contracts (energy shifts, joint prefactor scaling, energy/temperature co-scaling, rate scaling; reused and fresh calculators) as bounded stand-in for both calculators',
     text='Bounded: the four invariances and rate covariance hold to 1e-7 on every catalogue calculator with seeded data, on a reused calculator and on a fresh one.',
     note='Clause (d) (intra-cell displacements) not covered.')
 CLAIMS['C06'] = dict(engine='rtc (E3)', category='exploration',
@@ -114,10 +114,10 @@ CLAIMS['C08'] = dict(engine='rtc (E3)', category='exploration',
     technique='run-time postconditions of Lij over a grid of omega2 scales with both forced algorithms; bounded stand-in with known findings',
     text='Bounded: finiteness/symmetry of the default selection, agreement of the two algorithms for scales <= 1e6, smooth approach to the large-rate limit (1e-3). Known findings: drift at 1e15/1e16, blow-up and disagreement on crystals with origin states, disagreement on low-symmetry crystals.',
     note='Scale grid and catalogue are the bound; constants fixed in DESIGN.md.')
-CLAIMS['C11'] = dict(engine='rtc (E3)', category='exploration',
-    technique='run-time postconditions: barrier output vs 4th-order finite difference in beta; dipoles vs group-average projection spec; elastodiffusion vs finite difference of the exact CTMC diffusivity under strain; bounded stand-in',
+CLAIMS['C11'] = dict(engine='symx-lf (E4b) + rtc (E3)', category='exploration',
+    technique='barrier output == -dD/dbeta decided symbolically (real source on symbolic prefactors/energies, exact polynomial arithmetic, coefficient tolerance for floating-point geometry) per enumerated network; run-time postconditions: barrier output vs 4th-order finite difference in beta; dipoles vs group-average projection spec; elastodiffusion vs finite difference of the exact CTMC diffusivity under strain; bounded stand-in',
     text='Bounded: on every catalogue crystal with seeded data and arbitrary non-symmetric input dipoles: Db = -dD/dbeta (1e-6), dipoles are the symmetric projection carried by symmetry (1e-9), elastodiffusion = dD/dstrain (1e-6).',
-    note='Finite differences, not an exact symbolic identity.')
+    note='Symbolic identity for solve-branch networks with at most 3 vector-basis functions; finite differences elsewhere and for elastodiffusion.')
 CLAIMS['C12'] = dict(engine='rtc (E3)', category='exploration',
     technique='run-time postconditions of losstensors against an independently rebuilt rate matrix and the fluctuation sum rule; bounded stand-in',
     text='Bounded: positive mode rates that are eigenvalues of the symmetrised rate matrix, compliance symmetries, positive semidefiniteness, sum rule to 1e-9, on every catalogue crystal with seeded data and non-symmetric dipoles.',
